@@ -26,7 +26,7 @@ claim('C18', 'exhaustive enumeration of all pairs/triples of a version-string al
 
 RT_NOTE = ('Trusts ref/neutral.py, ref/observe.py, ref/catalogue.py%s. Bounds: the 333-payload catalogue, <= 2 deviations (payloads, absent key, trims, map history, version declared by string/constant/detected, name sets) '
            'from the benign default at once (8 slots of a fixed skeleton: grid meta, column meta, two cells, list element, dict value, '
-           'nested-grid cell and meta), 1-2 grids per document, nesting <= 3; pint mode not explored.')
+           'nested-grid cell and meta), 1-2 grids per document, nesting <= 3; Pint mode not explored (it renames units by design).')
 
 claim('C01', 'deviation-bounded exhaustive enumeration of catalogue payloads over grid slots; dump -> own parse -> neutral comparison',
       'Every catalogue payload in every slot (d=1, complete) and every pair of payloads in every pair of slots (d=2; reduced catalogue in the '
@@ -53,7 +53,8 @@ claim('C20', 'exhaustive enumeration of operator x operand pair x operand shape 
       'Complete product of 13 arithmetic/bitwise + 6 comparison operators x 19^2 boundary operands (zeros, negatives, 2^62, 2^53+1, 10^400, bool, tiny, huge, '
       'inf, nan) x 6 shapes (Quantity left, right, both with same / different / no unit) x units, 3-argument pow, 7 unary operators and '
       'conversions; the result must be identical in type and value (NaN- and signed-zero-aware) or raise the same exception class as the bare '
-      'expression; comparisons across differing units must raise TypeError.',
+      'expression; comparisons across differing units must raise TypeError. The whole space is run a second time with hszinc switched to its '
+      'Pint-backed Quantity class (use_pint; units Pint knows; bool magnitudes excluded because Pint refuses them), with pickled / copied operands.',
       'Oracle is the same Python expression on the bare values in the same interpreter. int**int with exponent > 64 and int<<int > 4096 are '
       'skipped (the bare expression does not terminate). hash() and bool() are not part of the statement.',
       'DESIGN.md 5 C20')
@@ -62,7 +63,7 @@ HIST_NOTE = ('Trusts the reference model named in the text and the canonical sta
              'getattr probes; an unknown hidden state is never merged). Bounds are the operation alphabet, the row/key universe and the depth '
              'given in evidence coverage.bounds; longer histories and larger grids are not covered.')
 claim('C10', 'explicit-state BFS over entry-path histories (incl. observation reads, copies, earlier activity from the import-time module state) on the real Grid with a gating invariant; exhaustive agreement matrix over deciders',
-      'Breadth-first search over histories of all 13 entry paths x 7 value kinds from 154 roots (7 declared versions x constructor variants) on a '
+      'Breadth-first search over histories of all 22 entry paths (incl. extend / += fed by generators and by another Grid) x 7 value kinds from 154 roots (7 declared versions x constructor variants) on a '
       'real Grid: after every step the gating invariant (explicit pre-3.0 version => ValueError and no 3.0-only value reachable; no version given '
       '=> reports >= 3.0 as soon as one is reachable) and both writers (refuse with ValueError or declare >= 3.0) are evaluated; every state\'s slices and filter results obey the same invariant; plus the complete '
       'matrix 6 versions x 7 kinds x 7 deciders, nested pre-3.0 grids inside 3.0 documents, (Grid, ZINC/JSON writer, ZINC/JSON grid reader, ZINC/JSON scalar reader) who must all refuse '
@@ -90,7 +91,7 @@ claim('C16', 'explicit-state BFS to the fixpoint over operation histories on rea
       'DESIGN.md 5 C16')
 
 claim('C03', 'deviation-bounded exhaustive enumeration of documents from an independent grammar-directed ZINC writer, parsed by hszinc',
-      'ref/refzinc.py renders 9 base grids (all value kinds, metadata, nested collections and grids) with a choice at every token: separator '
+      'ref/refzinc.py renders 10 base grids (all value kinds, metadata, nested collections and grids) with a choice at every token (and at the entry point: parse() or the same text as a nested-grid literal through parse_scalar; input also as BOM-less UTF-16 and single-byte charsets): separator '
       'blanks, N vs empty cell, _ digit groups, exponent forms, every escape form of every string/URI character, LF/CRLF, trailing blanks, '
       'list/dict layouts, T/t and Z/z, fraction digits, final newline present/absent/blank line, 0-3 grids per document, str or bytes in '
       'utf-8/utf-16/latin-1, single flag. ALL documents with at most d non-canonical choices are parsed by hszinc and compared with the neutral '
@@ -123,7 +124,7 @@ claim('C08', 'complete enumeration of code points and short metacharacter string
 claim('C09', 'complete one-step mutation closure and short-string enumeration fed to the real ZINC parser with exception-type, position and mis-parse oracles',
       'Every single deletion, truncation, replacement and insertion (over a 31-symbol delimiter alphabet; 18 in the quick tier) at every offset of 12 '
       'seed documents that together hold every construct, every splice of two bracketed spans (thorough), every string of length <= 4 (3 quick) over '
-      'a 12-token alphabet as whole document / 3.0 body / 2.0 body / scalar under both versions, 70 semantically broken scalars alone, in metadata '
+      'a 12-token alphabet as whole document / 3.0 body / 2.0 body / scalar under both versions, the same one-step mutation closure of 24 well-formed scalars through the scalar API, 70 semantically broken scalars alone, in metadata '
       'and in a cell, and three stdout environments on the error path. Oracle: grids or ZincParseException (a ValueError) with line/col inside the '
       'text; scalar API only ValueError; a per-case 30 s alarm; a text an independent structural scanner calls definitely broken must never yield a '
       'grid; when hszinc and the strict reference reader both accept, the grids must agree.',
@@ -143,7 +144,8 @@ claim('C19', 'complete enumeration of value pairs/triples and grid pairs differi
       'value, singleton identity), all triples over the per-kind representatives (transitivity), and for grids every (version, slot, v): equal to an '
       'independently built copy (and != False), equal to its own ZINC and JSON round trip where that round trip is exact, and == False / != True - '
       'never an exception - against g(w) for every w whose neutral form differs beyond the documented tolerance; 9 single structural differences in '
-      'both orders; grids against non-grids.',
+      'both orders; grids against non-grids; every ordered pair of 5 tzinfo providers (zoneinfo, a PEP 495 class, fixed offsets, pytz) x 7 London wall-clock '
+      'readings incl. both passes through the repeated hour, in 4 grid positions (same reading and offset => equal, a second or more apart => unequal).',
       'Not pinned (tolerated either way): bool vs number, NaN payloads, one instant in two zones, XStr differing only in type, sub-tolerance '
       'differences. Quantity vs plain number compares the value (C20).', 'DESIGN.md 5 C19')
 
@@ -165,12 +167,12 @@ claim('C12', 'complete product of canary payloads x grammar positions x enclosin
       'segment, unit, zone, Bin) x 5 enclosing shapes; each filter runs after a benign twin of the same kind. Violations: the canary ran, any audited '
       'event other than compiling/executing the generated def (open, import, exec/compile of other text, os.*, subprocess, socket ...), audit events '
       'differing from the twin, a write to stdout, a probe row that is only selected if the payload was evaluated, a change of builtins / sys.modules / '
-      'os.environ / cwd / hszinc module globals, a modified grid; 57 texts that are not filters must be rejected with pyparsing\'s ParseException.',
+      'os.environ / cwd / hszinc module globals (identity and content of containers), a modified grid; 19 unit payloads x 9 filter forms in Pint mode under a fingerprint of the shared unit registry; 57 texts that are not filters must be rejected with pyparsing\'s ParseException.',
       'Effects no monitor can observe (pure computation whose value no probe row matches) are outside the check. Payloads are inert by construction.',
       'DESIGN.md 5 C12')
 claim('C13', 'exhaustive preemption-bounded enumeration of thread interleavings of the real code under a settrace scheduler; exhaustive short cache and data-change histories',
       'Real threads run the real Grid.filter under a deterministic scheduler whose scheduling points are the source lines of the non-lambda functions '
-      'of hszinc/grid_filter.py and of Grid.filter; ALL interleavings with at most the stated number of preemptions are executed for 5 thread plans '
+      'of hszinc/grid_filter.py and of Grid.filter; ALL interleavings with at most the stated number of preemptions are executed for 9 thread plans (two of them with reference-following filters whose evaluation walks the shared grid) '
       '(2 and 3 threads, distinct and identical filters, cache capacity real / 1 / 2): quick = bound 2 for two distinct filters, 1 otherwise; thorough '
       '= 3 with two threads, 2 with three. Each execution ends with a sequential post-phase re-evaluating every filter and every function object '
       'obtained earlier; results must equal the reference evaluator, no thread may raise, no finaliser may raise (sys.unraisablehook), no deadlock; a '
